@@ -62,11 +62,16 @@ func checkC11(c *Ctx, r *Result, tier string) {
 		r.Undecide("parser.Runtime not found")
 		return
 	}
-	pw := NewParamWrites(c)
 
 	// ---- R11a / R11b -------------------------------------------------------------------------
 	acts := actionClosures(c)
 	r.Floor("R11a-action-closures", len(acts), 1)
+	// the summary used for hand-offs out of the action leaves the evaluation of the body aside, in a
+	// callee (rt.runAction(…)) as in the literal itself: what Eval methods write is R11c's subject
+	pwAct := NewParamWrites(c)
+	pwAct.SkipCall = func(ci ssa.CallInstruction) bool {
+		return ci.Common().IsInvoke() && types.Identical(ci.Common().Value.Type().Underlying(), rtIface)
+	}
 	c11BindBeforeParent(c, r, acts)
 	cActionThreadID(c, r, "R11g")
 	for _, act := range acts {
@@ -116,7 +121,7 @@ func checkC11(c *Ctx, r *Result, tier string) {
 						if !c.modFuncSet[callee] {
 							continue
 						}
-						if w, ok := pw.Of(callee, 1)[ai]; ok {
+						if w, ok := pwAct.Of(callee, 1)[ai]; ok {
 							// writes to the scope passed as parent / to the runtime itself?
 							bad = true
 							name := root.Name()
@@ -303,6 +308,35 @@ func mustHoldAny(lf *LockFlow, in ssa.Instruction) bool {
 	return false
 }
 
+// actionBodies: the literal installed as a rule's action, its nested literals and the functions of the
+// same package it calls directly (the body of the action as a method: rt.runAction(…)).
+func actionBodies(c *Ctx, act *ssa.Function) []*ssa.Function {
+	out := withNested(act)
+	seen := map[*ssa.Function]bool{}
+	for _, f := range out {
+		seen[f] = true
+	}
+	for _, f := range withNested(act) {
+		allInstrs(f, func(in ssa.Instruction) {
+			ci, ok := in.(ssa.CallInstruction)
+			if !ok {
+				return
+			}
+			g := ci.Common().StaticCallee()
+			if g == nil || seen[g] || !c.inModule(g) || len(g.Blocks) == 0 || c.PkgOf(g) != c.PkgOf(act) {
+				return
+			}
+			for _, h := range withNested(g) {
+				if !seen[h] {
+					seen[h] = true
+					out = append(out, h)
+				}
+			}
+		})
+	}
+	return out
+}
+
 // ---- R11f: the invocation's own names are bound on a scope that has no parent yet ----------------
 
 // Scope.SetValue assigns to the nearest scope of the chain that already holds the name. The sink
@@ -317,7 +351,7 @@ func c11BindBeforeParent(c *Ctx, r *Result, acts []*ssa.Function) {
 	}
 	n := 0
 	for _, act := range acts {
-		for _, fn := range withNested(act) {
+		for _, fn := range actionBodies(c, act) {
 			key := c.FuncKey(fn)
 			ord := newOrdinals()
 			var parents []ssa.CallInstruction
